@@ -32,6 +32,7 @@ type Obl struct {
 	Ms      int64
 	Model   string
 	Query   string
+	RawQuery string
 	Abstracted bool
 }
 
@@ -61,6 +62,8 @@ type FnExec struct {
 	entry    *State
 	globErrs map[*ssa.Global]*Term
 	crossMode map[string]bool
+	lemmaFiles map[string]bool
+	refKeys map[string]bool
 	symMemo map[*Term]map[string]bool
 	idxNames map[int]*Term
 	tcMu sync.Mutex
@@ -145,7 +148,7 @@ type Frame struct {
 func newFnExec(e *Engine, c *Contract, fn *ssa.Function) *FnExec {
 	x := &FnExec{E: e, tc: NewTermCtx(), top: c, topFn: fn, bv: c.Mode == "bv", noOvf: c.NoOverflow,
 		kindCnt: map[string]int{}, ranged: map[int]bool{}, rangedSl: map[int]bool{}, heapSorts: map[string]Sort{},
-		strConsts: map[string]*Term{}, trustedUsed: map[string]bool{}, typeTags: map[string]int{}, globErrs: map[*ssa.Global]*Term{}, crossMode: map[string]bool{}, idxNames: map[int]*Term{}, boxAxiom: map[string]bool{}, ghostTypes: map[string]types.Type{}}
+		strConsts: map[string]*Term{}, trustedUsed: map[string]bool{}, typeTags: map[string]int{}, globErrs: map[*ssa.Global]*Term{}, crossMode: map[string]bool{}, lemmaFiles: map[string]bool{}, refKeys: map[string]bool{}, idxNames: map[int]*Term{}, boxAxiom: map[string]bool{}, ghostTypes: map[string]types.Type{}}
 	return x
 }
 
@@ -287,6 +290,16 @@ func (x *FnExec) verifyFunction() {
 		fr.vals[fv] = v
 	}
 	g := x.tc.True()
+	if c.Opts["iremaxioms"] != "" {
+		// checked arithmetic lemma (contracts/lemmas/irem_distinct.smt2) about the uninterpreted remainder
+		tc := x.tc
+		a, b, n := tc.BVar("a", SInt), tc.BVar("b", SInt), tc.BVar("n", SInt)
+		x.addFact(tc.Forall([]*Term{a, b, n}, tc.Implies(tc.And(tc.Ge(a, tc.Int(0)), tc.Gt(b, a), tc.Lt(tc.Sub(b, a), n), tc.Gt(n, tc.Int(0))),
+			tc.Not(tc.Eq(tc.UF("irem", SInt, a, n), tc.UF("irem", SInt, b, n))))))
+		x.addFact(tc.Forall([]*Term{a, n}, tc.Implies(tc.And(tc.Ge(a, tc.Int(0)), tc.Gt(n, tc.Int(0))),
+			tc.And(tc.Ge(tc.UF("irem", SInt, a, n), tc.Int(0)), tc.Lt(tc.UF("irem", SInt, a, n), n)))))
+		x.lemmaFiles["irem_distinct.smt2"] = true
+	}
 	// requires
 	ev := x.specEnv(fr, st, st, c)
 	for _, r := range c.Requires {
@@ -597,6 +610,21 @@ func (x *FnExec) enterLoop(fr *Frame, li *loopInfo, ps []stParent, preds []*ssa.
 			// visited set of a map iteration
 			mt := av.X.Type().Underlying().(*types.Map)
 			st.cells[a] = TupleV{x.tc.Fresh("visited", SArr(x.scalarSort(mt.Key()), SBool)), x.tc.Fresh("nvisited", x.refSort())}
+		}
+	}
+	// every reference stored in a havocked heap component denotes an allocated object
+	for _, k := range keys {
+		if !x.refKeys[k] {
+			continue
+		}
+		h := st.heap[k]
+		r := x.tc.BVar("r", x.refSort())
+		switch {
+		case strings.HasPrefix(k, "obj:"):
+			x.assume(g, x.tc.Forall([]*Term{r}, x.tc.And(x.intLe(x.refConst(0), x.tc.Select(h, r)), x.intLt(x.tc.Select(h, r), na))))
+		case strings.HasPrefix(k, "elem:"):
+			i := x.tc.BVar("i", x.refSort())
+			x.assume(g, x.tc.Forall([]*Term{r, i}, x.tc.And(x.intLe(x.refConst(0), x.tc.Select(x.tc.Select(h, r), i)), x.intLt(x.tc.Select(x.tc.Select(h, r), i), na))))
 		}
 	}
 	phis := map[*ssa.Phi]Value{}
